@@ -3,7 +3,10 @@
    (Value_opAdd ...) are REGENERATED from /repo/value.go by tools/go2v on every
    run; the right-hand sides (iadd, iquo, wrap ...) are GoSpec/GoPrim.v. *)
 From Coq Require Import ZArith Floats Bool.
-From GV Require Import GoSpec.GoPrim Gen.ValueOps_gen Proofs.C04_ops.
+From Coq Require Import List String.
+From GV Require Import GoSpec.GoPrim Gen.ValueOps_gen Gen.Tables_gen Model.VM Gen.Steps_gen Proofs.C04_ops Proofs.Steps_agree Proofs.C04_vm.
+Import ListNotations.
+Open Scope string_scope.
 Open Scope Z_scope.
 
 (* every arithmetic / bitwise / shift / comparison operator, every typed integer
@@ -112,3 +115,60 @@ Example c04_witness :
   Value_opBitRsh (V I8 (-3)) (V I8 1) = Ok (V I8 (-2)) /\ Value_incDec (V U32 0) (-1) = Ok (V U32 4294967295) /\
   Value_incDec (V U8 255) 1 = Ok (V U8 0).
 Proof. vm_compute. repeat split. Qed.
+
+(* How the VM uses these operators.  Gen/Steps_gen.v (step_gen) is regenerated from the `exec` switch of
+   /repo/do.go on every run; the theorems below are about that generated step function, for every
+   instruction, every operand stack, every frame and VM state: each arithmetic / comparison / bit
+   instruction applies the operator proved above to (left, right) in source order (GT and GTE are LT and
+   LTE with the operands swapped), INCDEC / LOCALINCDEC use incDec, CAST uses assign, CONVERT uses convert,
+   LOCALSET / GLOBALSET assign with the type of the variable's current value, and the fused LOCAL*
+   instructions read both slots in order.  An edit of one of these cases in do.go changes step_gen and
+   breaks these theorems; Proofs/Steps_agree.v transfers them to the hand-written model Model/VM.v. *)
+Theorem c04_vm_binop : forall name sw f, In (name, sw, f) vm_binops ->
+  forall i slots a b rest s, icode i = C name ->
+  step_gen i slots (b :: a :: rest) s = Some (binop_result sw f slots a b rest s).
+Proof. exact vm_binop_step. Qed.
+Print Assumptions c04_vm_binop.
+
+Theorem c04_vm_incdec : forall i slots a rest s, icode i = C "codeIncDec" ->
+  step_gen i slots (a :: rest) s = Some (slift (Value_incDec a (iA i)) s (fun r => SNext slots (r :: rest) s)).
+Proof. exact vm_incdec_step. Qed.
+Print Assumptions c04_vm_incdec.
+
+Theorem c04_vm_localincdec : forall i slots ops s l, icode i = C "codeLocalIncDec" -> znth slots (iA i) = Some l ->
+  step_gen i slots ops s = Some (slift (Value_incDec l (iB i)) s (fun r => SNext (zset slots (iA i) r) ops s)).
+Proof. exact vm_localincdec_step. Qed.
+Print Assumptions c04_vm_localincdec.
+
+Theorem c04_vm_cast : forall i slots a rest s, icode i = C "codeCast" ->
+  step_gen i slots (a :: rest) s = Some (SNext slots (Value_assign a (iA i) :: rest) s).
+Proof. exact vm_cast_step. Qed.
+Print Assumptions c04_vm_cast.
+
+Theorem c04_vm_convert : forall i slots a rest s, icode i = C "codeConvert" ->
+  step_gen i slots (a :: rest) s = Some (slift (Value_convert a (iA i)) s (fun r => SNext slots (r :: rest) s)).
+Proof. exact vm_convert_step. Qed.
+Print Assumptions c04_vm_convert.
+
+Theorem c04_vm_localset : forall i slots a rest s l, icode i = C "codeLocalSet" -> znth slots (iA i) = Some l ->
+  step_gen i slots (a :: rest) s = Some (SNext (zset slots (iA i) (Value_assign a (vt l))) rest s).
+Proof. exact vm_localset_step. Qed.
+Print Assumptions c04_vm_localset.
+
+Theorem c04_vm_globalset : forall i slots a rest s g, icode i = C "codeGlobalSet" -> znth (globals s) (iA i) = Some g ->
+  step_gen i slots (a :: rest) s = Some (SNext slots rest (set_global s (iA i) (Value_assign a (vt g)))).
+Proof. exact vm_globalset_step. Qed.
+Print Assumptions c04_vm_globalset.
+
+Theorem c04_vm_localop : forall name f, In (name, f) vm_local_binops ->
+  forall i slots ops s l1 l2, icode i = C name -> znth slots (iA i) = Some l1 -> znth slots (iB i) = Some l2 ->
+  step_gen i slots ops s = Some (binop_result false f slots l1 l2 ops s).
+Proof. exact vm_localop_step. Qed.
+Print Assumptions c04_vm_localop.
+
+(* the same for the hand-written model the other properties' theorems are stated on *)
+Theorem c04_vm_binop_model : forall name sw f, In (name, sw, f) vm_binops ->
+  forall grow ext_get ext_set ext_len ext_getattr ext_setattr codes pc i slots a b rest s, icode i = C name ->
+  step1 grow ext_get ext_set ext_len ext_getattr ext_setattr codes pc i slots (b :: a :: rest) s = binop_result sw f slots a b rest s.
+Proof. exact vm_binop_step1. Qed.
+Print Assumptions c04_vm_binop_model.
